@@ -458,7 +458,9 @@ PROPS = {
                 "command_not_found_handle, canaries, scratch directory) and the recovered "
                 "COMPREPLY/compadd/_filedir/_files data is compared with the revision-0 "
                 "candidates and completers (each exactly once); fish/elvish output is compared "
-                "line by line; every 8th case the static --bpaf-complete-style-* stubs are obtained "
+                "line by line and must carry a directive for every requested completer (F38/F39); "
+                "help texts include one line of 120 columns; "
+                "every 8th case the static --bpaf-complete-style-* stubs are obtained "
                 "from a child process (exit 0, program name embedded, `bash -n` for bash/zsh). "
                 "evaluations = scripts judged. " + DISTINCT,
         "assumptions": COMMON_ASSUMPTIONS + [
